@@ -18,6 +18,12 @@ static uint32_t pfor_threshold(const ctx *c) {
     return t[c->st % 3];
 }
 
+/* The analysis is a deterministic function of (values, threshold): a run
+ * with a failed allocation either reports the failure (zeroed meta) or gives
+ * exactly what the fault-free run gave.  Which percentile element, width and
+ * marker the analysis picks is the codec's own business (checked, as far as a
+ * property speaks about it, by C16); only what the documentation promises
+ * about every successful analysis is asked of the fault-free run. */
 static void f_pfor_threshold(ctx *c) {
     const uint64_t *x = c->a.v;
     uint32_t n = (uint32_t)c->a.n, t = pfor_threshold(c);
@@ -33,109 +39,103 @@ static void f_pfor_threshold(ctx *c) {
         reported_failure(c, "a zeroed meta");
         return;
     }
-    uint64_t *s = (uint64_t *)xmalloc(n * sizeof(uint64_t));
-    memcpy(s, x, n * sizeof(uint64_t));
-    qsort(s, n, sizeof(uint64_t), cmp_u64);
-    uint32_t ti = (uint32_t)(((uint64_t)n * t) / 100);
-    if (ti >= n) {
-        ti = n - 1;
+    if (c->k == 0) {
+        uint64_t mn = x[0];
+        for (uint32_t i = 1; i < n; i++) {
+            mn = x[i] < mn ? x[i] : mn;
+        }
+        if (m.count != n || m.min != mn || m.threshold != t ||
+            (unsigned)m.width != (unsigned)w || (unsigned)w < 1 ||
+            (unsigned)w > 8 || m.exceptionCount > n) {
+            bad(c, "value",
+                "meta count=%u min=%llu width=%u ret=%u exc=%u threshold=%u for "
+                "%u values with minimum %llu, threshold %u",
+                m.count, (unsigned long long)m.min, (unsigned)m.width,
+                (unsigned)w, m.exceptionCount, m.threshold, n,
+                (unsigned long long)mn, t);
+            return;
+        }
+        c->pm0 = m;
+        c->pw0 = (unsigned)w;
+        return;
     }
-    uint64_t mn = s[0], tv = s[ti];
-    free(s);
-    unsigned mw = bytes_for(tv - mn);
-    uint64_t marker = mw >= 8 ? UINT64_MAX : ((1ULL << (8 * mw)) - 1);
-    uint32_t e1 = 0, e2 = 0;
-    for (uint32_t i = 0; i < n; i++) {
-        e1 += x[i] > tv;
-        e2 += x[i] > tv || (x[i] - mn) == marker;
-    }
-    if (m.count != n || m.min != mn || m.thresholdValue != tv ||
-        (unsigned)m.width != mw || (unsigned)w != mw || m.threshold != t ||
-        m.exceptionMarker != marker ||
-        (m.exceptionCount != e1 && m.exceptionCount != e2)) {
+    if (m.count != c->pm0.count || m.min != c->pm0.min ||
+        m.thresholdValue != c->pm0.thresholdValue ||
+        (unsigned)m.width != (unsigned)c->pm0.width || (unsigned)w != c->pw0 ||
+        m.threshold != c->pm0.threshold ||
+        m.exceptionMarker != c->pm0.exceptionMarker ||
+        m.exceptionCount != c->pm0.exceptionCount) {
         bad(c, "value",
-            "meta count=%u min=%llu thr=%llu width=%u ret=%u exc=%u; expected "
-            "count=%u min=%llu thr=%llu width=%u exc=%u|%u",
+            "meta count=%u min=%llu thr=%llu width=%u ret=%u exc=%u marker=%llx; "
+            "the fault-free analysis of the same input gave count=%u min=%llu "
+            "thr=%llu width=%u ret=%u exc=%u marker=%llx",
             m.count, (unsigned long long)m.min,
             (unsigned long long)m.thresholdValue, (unsigned)m.width, (unsigned)w,
-            m.exceptionCount, n, (unsigned long long)mn, (unsigned long long)tv,
-            mw, e1, e2);
+            m.exceptionCount, (unsigned long long)m.exceptionMarker,
+            c->pm0.count, (unsigned long long)c->pm0.min,
+            (unsigned long long)c->pm0.thresholdValue, (unsigned)c->pm0.width,
+            c->pw0, c->pm0.exceptionCount,
+            (unsigned long long)c->pm0.exceptionMarker);
     }
 }
 
-/* structural check of a PFOR buffer with the reference tagged reader, so the
- * library decoder is only run on something it can walk */
-static int pfor_shape_ok(const uint8_t *p, size_t len, size_t n, char *why,
-                         size_t whyn) {
-    uint64_t v;
-    size_t off = 0;
-    unsigned l = vf_ref_decode(VF_TAGGED, p, 0, &v);
-    if (!l || l > len) {
-        snprintf(why, whyn, "no minimum");
-        return 0;
-    }
-    off = l;
-    if (off >= len) {
-        snprintf(why, whyn, "ends after the minimum");
-        return 0;
-    }
-    unsigned width = p[off++];
-    if (width < 1 || width > 8) {
-        snprintf(why, whyn, "width byte %u", width);
-        return 0;
-    }
-    l = vf_ref_decode(VF_TAGGED, p + off, 0, &v);
-    if (!l || off + l > len || v != n) {
-        snprintf(why, whyn, "header count %llu, input has %zu",
-                 (unsigned long long)v, n);
-        return 0;
-    }
-    off += l;
-    if (off + n * width >= len + 1) {
-        snprintf(why, whyn, "%zu bytes cannot hold %zu values of width %u", len,
-                 n, width);
-        return 0;
-    }
-    off += n * width;
-    l = vf_ref_decode(VF_TAGGED, p + off, 0, &v);
-    if (!l || off + l > len || v > n) {
-        snprintf(why, whyn, "exception count %llu", (unsigned long long)v);
-        return 0;
-    }
-    return 1;
-}
-
-static int pfor_roundtrip(ctx *c, const uint8_t *out, size_t len, size_t cap,
-                          const char *what) {
+/* One decode of src (which holds the len bytes the encoder reported, in a
+ * block described by `where`) with the library's own reader and decoder.  No
+ * layout of the stream is assumed: the header is read back with
+ * varintPFORReadMeta (so that a count the output array cannot hold is
+ * reported instead of being decoded), the values with varintPFORDecode. */
+static int pfor_decode_check(ctx *c, const uint8_t *src, size_t len,
+                             const char *what, const char *where) {
     const uint64_t *x = c->a.v;
     size_t n = c->a.n, at;
+    varintPFORMeta m2;
+    memset(&m2, 0, sizeof(m2));
+    varintPFORReadMeta(src, &m2);
+    if (m2.count != n) {
+        return bad(c, "value",
+                   "%s returned %zu (success) but varintPFORReadMeta finds %u "
+                   "values announced in the output (%s), input has %zu", what,
+                   len, m2.count, where, n);
+    }
+    uint64_t *dec = (uint64_t *)xmalloc(n * sizeof(uint64_t));
+    memset(dec, 0xA5, n * sizeof(uint64_t));
+    memset(&m2, 0, sizeof(m2));
+    int r = 0;
+    size_t cnt = varintPFORDecode(src, dec, &m2);
+    if (cnt != n) {
+        r = bad(c, "value", "%s output (%s) decodes to %zu values, input %zu",
+                what, where, cnt, n);
+    } else if (first_diff_u64(dec, x, n, &at)) {
+        r = bad(c, "value",
+                "%s returned %zu (success) but the output (%s) decodes "
+                "[%zu]=%llu, input %llu", what, len, where, at,
+                (unsigned long long)dec[at], (unsigned long long)x[at]);
+    }
+    free(dec);
+    return r;
+}
+
+/* out[0..len) is what a call reported as a successful encoding.  It is judged
+ * only by decoding it with the library: first in a zero padded block (a
+ * decoder led astray by a wrong stream meets zeros and the verdict is a clean
+ * value mismatch), then in an exact-size block, as a caller that stores
+ * exactly the reported length would hold it (ASan redzone: a decoder that
+ * needs bytes behind the reported length dies there, and that death is the
+ * finding: "success" with an output that cannot be decoded). */
+static int pfor_roundtrip(ctx *c, const uint8_t *out, size_t len, size_t cap,
+                          const char *what) {
+    size_t n = c->a.n;
     if (len > cap) {
         return bad(c, "length", "%s returned %zu > buffer %zu", what, len, cap);
     }
     uint8_t *cp = padded_copy(out, len, 64 + 18 * n);
-    char why[120];
-    int r = 0;
-    if (!pfor_shape_ok(cp, len, n, why, sizeof(why))) {
-        r = bad(c, "value", "%s returned %zu bytes that are not a PFOR stream of "
-                            "the input: %s", what, len, why);
-    } else {
-        uint64_t *dec = (uint64_t *)xmalloc(n * sizeof(uint64_t));
-        memset(dec, 0xA5, n * sizeof(uint64_t));
-        varintPFORMeta m2;
-        memset(&m2, 0, sizeof(m2));
-        size_t cnt = varintPFORDecode(cp, dec, &m2);
-        if (cnt != n) {
-            r = bad(c, "value", "%s output decodes to %zu values, input %zu", what,
-                    cnt, n);
-        } else if (first_diff_u64(dec, x, n, &at)) {
-            r = bad(c, "value",
-                    "%s returned %zu (success) but the output decodes [%zu]=%llu, "
-                    "input %llu", what, len, at, (unsigned long long)dec[at],
-                    (unsigned long long)x[at]);
-        }
-        free(dec);
-    }
+    int r = pfor_decode_check(c, cp, len, what, "zero padded copy");
     free(cp);
+    if (!r) {
+        uint8_t *ex = exact_copy(out, len);
+        r = pfor_decode_check(c, ex, len, what, "exact-size copy");
+        vf_exact_free(ex);
+    }
     return r;
 }
 
@@ -227,34 +227,46 @@ static int float_values_ok(ctx *c, const double *dec, char *why, size_t whyn) {
     return 1;
 }
 
+static int float_decode_check(ctx *c, const uint8_t *src, size_t len,
+                              const char *where, int keep) {
+    size_t n = c->a.n;
+    double *dec = (double *)xmalloc(n * sizeof(double));
+    memset(dec, 0xA5, n * sizeof(double));
+    size_t used = varintFloatDecode(src, n, dec);
+    char why[200];
+    int r = 0;
+    if (used != len) {
+        r = bad(c, "value", "encoder returned %zu bytes, decoder (%s) consumed "
+                            "%zu", len, where, used);
+    } else if (!float_values_ok(c, dec, why, sizeof(why))) {
+        r = bad(c, "value", "encoder returned %zu (success) but (%s) %s", len,
+                where, why);
+    } else if (keep && c->k == 0) {
+        free(c->fbase);
+        c->fbase = dec;
+        dec = NULL;
+    }
+    free(dec);
+    return r;
+}
+
+/* the reported output is judged by decoding it with the library (zero padded
+ * block first, then exact-size block; see pfor_roundtrip); nothing about the
+ * float stream's sections is assumed */
 static int float_roundtrip(ctx *c, const uint8_t *out, size_t len, size_t cap) {
     size_t n = c->a.n;
     if (len > cap) {
         return bad(c, "length", "varintFloatEncode returned %zu > buffer %zu", len,
                    cap);
     }
-    if (len < 4 + 2 * ((n + 7) / 8)) {
-        return bad(c, "value", "varintFloatEncode returned %zu bytes for %zu "
-                               "values (shorter than header and bitmaps)", len, n);
-    }
     uint8_t *cp = padded_copy(out, len, 64 + 10 * n);
-    double *dec = (double *)xmalloc(n * sizeof(double));
-    memset(dec, 0xA5, n * sizeof(double));
-    size_t used = varintFloatDecode(cp, n, dec);
-    char why[200];
-    int r = 0;
-    if (used != len) {
-        r = bad(c, "value", "encoder returned %zu bytes, decoder consumed %zu", len,
-                used);
-    } else if (!float_values_ok(c, dec, why, sizeof(why))) {
-        r = bad(c, "value", "encoder returned %zu (success) but %s", len, why);
-    } else if (c->k == 0) {
-        free(c->fbase);
-        c->fbase = dec;
-        dec = NULL;
-    }
-    free(dec);
+    int r = float_decode_check(c, cp, len, "zero padded copy", 0);
     free(cp);
+    if (!r) {
+        uint8_t *ex = exact_copy(out, len);
+        r = float_decode_check(c, ex, len, "exact-size copy", 1);
+        vf_exact_free(ex);
+    }
     return r;
 }
 
@@ -435,47 +447,38 @@ static void f_analyze(ctx *c) {
     }
 }
 
-/* bitmap payload must be walkable before the library decoder sees it */
-static int bitmap_payload_ok(const uint8_t *p, size_t len, char *why, size_t whyn) {
-    if (len < 5) {
-        snprintf(why, whyn, "bitmap payload of %zu bytes", len);
-        return 0;
-    }
-    uint32_t card, runs;
-    memcpy(&card, p + 1, 4);
-    size_t want;
-    switch (p[0]) {
-    case 0:
-        want = 5 + 2 * (size_t)card;
-        break;
-    case 1:
-        want = 5 + 8192;
-        break;
-    case 2:
-        if (len < 9) {
-            snprintf(why, whyn, "run container of %zu bytes", len);
-            return 0;
-        }
-        memcpy(&runs, p + 5, 4);
-        want = 9 + 4 * (size_t)runs;
-        break;
-    default:
-        snprintf(why, whyn, "container type %u", p[0]);
-        return 0;
-    }
-    if (card > 65536 || want != len) {
-        snprintf(why, whyn, "container type %u cardinality %u needs %zu bytes, "
-                            "%zu written", p[0], card, want, len);
-        return 0;
-    }
-    return 1;
-}
-
-/* out[0..len) claims to be an adaptive encoding of the input */
-static int adaptive_roundtrip(ctx *c, const uint8_t *out, size_t len, size_t cap,
-                              int want_type, const char *what) {
+static int adaptive_decode_check(ctx *c, const uint8_t *src, size_t len,
+                                 unsigned type, const char *what,
+                                 const char *where) {
     const uint64_t *x = c->a.v;
     size_t n = c->a.n, at;
+    uint64_t *dec = (uint64_t *)xmalloc(n * sizeof(uint64_t));
+    memset(dec, 0xA5, n * sizeof(uint64_t));
+    int r = 0;
+    size_t cnt = varintAdaptiveDecode(src, dec, n, NULL);
+    if (cnt != n) {
+        r = bad(c, "value",
+                "%s returned %zu (success, %s) but the output (%s) decodes to "
+                "%zu values, input has %zu", what, len, c18_tname[type], where,
+                cnt, n);
+    } else if (first_diff_u64(dec, x, n, &at)) {
+        r = bad(c, "value",
+                "%s returned %zu (success, %s) but the output (%s) decodes "
+                "[%zu]=%llu, input %llu", what, len, c18_tname[type], where, at,
+                (unsigned long long)dec[at], (unsigned long long)x[at]);
+    }
+    free(dec);
+    return r;
+}
+
+/* out[0..len) claims to be an adaptive encoding of the input.  The first byte
+ * names the encoding (that much C06 fixes); the payload behind it is opaque to
+ * the harness - whatever PFOR / dictionary / bitmap / ... layout it uses, it is
+ * judged by varintAdaptiveDecode giving the input back, from a zero padded
+ * block and from an exact-size block (see pfor_roundtrip). */
+static int adaptive_roundtrip(ctx *c, const uint8_t *out, size_t len, size_t cap,
+                              int want_type, const char *what) {
+    size_t n = c->a.n;
     if (len > cap) {
         return bad(c, "length", "%s returned %zu > buffer %zu", what, len, cap);
     }
@@ -483,38 +486,14 @@ static int adaptive_roundtrip(ctx *c, const uint8_t *out, size_t len, size_t cap
     if (type > 5 || (want_type >= 0 && type != (unsigned)want_type)) {
         return bad(c, "value", "%s wrote encoding type %u", what, type);
     }
-    if (len < 2) {
-        return bad(c, "value",
-                   "%s returned %zu (success): only the type byte %s for %zu "
-                   "values, nothing to decode", what, len, c18_tname[type], n);
-    }
     uint8_t *cp = padded_copy(out, len, 64 + 18 * n);
-    char why[160];
-    int r = 0;
-    if (type == VARINT_ADAPTIVE_PFOR &&
-        !pfor_shape_ok(cp + 1, len - 1, n, why, sizeof(why))) {
-        r = bad(c, "value", "%s returned %zu (success) but the PFOR payload is "
-                            "not a stream of the input: %s", what, len, why);
-    } else if (type == VARINT_ADAPTIVE_BITMAP &&
-               !bitmap_payload_ok(cp + 1, len - 1, why, sizeof(why))) {
-        r = bad(c, "value", "%s returned %zu (success) but %s", what, len, why);
-    } else {
-        uint64_t *dec = (uint64_t *)xmalloc(n * sizeof(uint64_t));
-        memset(dec, 0xA5, n * sizeof(uint64_t));
-        size_t cnt = varintAdaptiveDecode(cp, dec, n, NULL);
-        if (cnt != n) {
-            r = bad(c, "value",
-                    "%s returned %zu (success, %s) but the output decodes to %zu "
-                    "values, input has %zu", what, len, c18_tname[type], cnt, n);
-        } else if (first_diff_u64(dec, x, n, &at)) {
-            r = bad(c, "value",
-                    "%s returned %zu (success, %s) but the output decodes "
-                    "[%zu]=%llu, input %llu", what, len, c18_tname[type], at,
-                    (unsigned long long)dec[at], (unsigned long long)x[at]);
-        }
-        free(dec);
-    }
+    int r = adaptive_decode_check(c, cp, len, type, what, "zero padded copy");
     free(cp);
+    if (!r) {
+        uint8_t *ex = exact_copy(out, len);
+        r = adaptive_decode_check(c, ex, len, type, what, "exact-size copy");
+        vf_exact_free(ex);
+    }
     return r;
 }
 
